@@ -116,7 +116,7 @@ Section Lookups.
     assert (Hn : NoDup (keys (stable_sort le c))).
     { eapply Permutation_NoDup; [|exact H]. apply Permutation_map. symmetry. apply stable_sort_perm. }
     revert Hs Hn. generalize (stable_sort le c). intro l. induction l as [|x l IH]; simpl; intros Hs Hn; [exact I|].
-    destruct Hs as [Hf Hs]. inversion Hn as [|? ? Hx Hl]; subst. split; [|auto].
+    destruct Hs as [Hf Hs]. inversion Hn as [|? ? Hx Hl]; subst. split; [|exact (IH Hs Hl)].
     rewrite Forall_forall in *. intros y Hy. specialize (Hf y Hy). unfold klt, le, key_ltb, key_leb in *.
     destruct (key_compare (fst x) (fst y)) eqn:E; try discriminate; [|reflexivity].
     apply key_compare_eq in E. exfalso. apply Hx. rewrite E. apply in_map. exact Hy.
@@ -203,7 +203,7 @@ Definition call_rel (o : mop) (a b : out) : Prop :=
 
 Lemma ksorted_keys_ascending {V} (c : list (bytes * V)) : ksorted c -> keys_ascending (map fst c).
 Proof.
-  induction c as [|x c IH]; simpl; intro H; [exact I|]. destruct H as [Hf Hs]. split; [|auto].
+  induction c as [|x c IH]; simpl; intro H; [exact I|]. destruct H as [Hf Hs]. split; [|exact (IH Hs)].
   apply Forall_forall. intros k Hk. apply in_map_iff in Hk as [y [<- Hy]].
   rewrite Forall_forall in Hf. exact (Hf y Hy).
 Qed.
